@@ -186,4 +186,37 @@ theorem for_core (cx : Cx) (fuel : Nat) (env : Src.Env) (he : PlainEnv env) (lb 
   refine R2.silL (lab_jump hitJ jump_isJump) ?_
   rw [htgt5]; exact hQ
 
+/-- `ForBlockCompileHandler.collect()` -/
+theorem for_pm (cx : Cx) (fuel : Nat) (env : Src.Env) (he : PlainEnv env) (lb : Nat) (hd : Hdr) (init inc : Stmt) (body : Stmts)
+    (initM incM bodyM : M (List LItem)) (ht : isTest hd.name = true)
+    (hI : ∀ s items s', initM s = .ok (items, s') →
+      SimpleOK cx items (fun k b => Src.tr fuel [] env (toSrcStmt init) k b) ∧ s'.loops = s.loops ∧ s'.cases = s.cases)
+    (hE : ∀ s items s', incM s = .ok (items, s') →
+      SimpleOK cx items (fun k b => Src.tr fuel [] env (toSrcStmt inc) k b) ∧ s'.loops = s.loops ∧ s'.cases = s.cases)
+    (hBody : ∀ env', PlainEnv env' → PM cx bodyM (fun k b => Src.trStmts fuel [] env' (toSrcStmts body) k b) env') :
+    PM cx (forOf lb hd initM incM bodyM)
+      (fun k b => Src.tr fuel [] env (.for_ (toSrcStmt init) (hdrEv hd) (toSrcStmt inc) (toSrcStmts body)) k b) env := by
+  intro s items s' h
+  simp only [forOf, bind_ok, pushLoop_ok, popLoop_ok, pure_ok] at h
+  obtain ⟨u1, s1, h1, ii, s2, h2, jj, s3, h3, blk, s4, h4, ee, s5, h5, br, s6, h6, u2, s7, h7, h8⟩ := h
+  simp only [Prod.mk.injEq] at h1 h7 h8
+  obtain ⟨_, rfl⟩ := h1
+  obtain ⟨_, rfl⟩ := h7
+  obtain ⟨rfl, rfl⟩ := h8
+  obtain ⟨e3, rfl⟩ := genJump_stk h3
+  obtain ⟨rfl, rfl⟩ := buildFor_none (b := loopBP hd) rfl h6
+  obtain ⟨ops, sb, sL, eB, hrun, e4, hitems⟩ := loop_block_shape h4
+  rw [hitems]
+  obtain ⟨sI, lI, cI⟩ := hI _ _ _ h2
+  obtain ⟨sE, lE, cE⟩ := hE _ _ _ h5
+  have hP := fun env' he' => hBody env' he' _ _ _ hrun
+  have hP0 := hP env he
+  refine for_core cx fuel env he lb hd init inc body ht _ _ sL eB sI sE hP ?_ ?_ ?_ ?_
+  · rw [e3.1, lI]; rfl
+  · rw [e3.2, cI]; rfl
+  · show s5.loops.tail = s.loops
+    rw [lE, e4.1, hP0.loops, e3.1, lI]; rfl
+  · show s5.cases = s.cases
+    rw [cE, e4.2, hP0.cases, e3.2, cI]; rfl
+
 end ESV.Comp
